@@ -70,7 +70,7 @@ def main(prop):
     quick = ck.tier == "quick"
     tmp = tempfile.mkdtemp(prefix="gtv-conv-")
     try:
-        for it in range(150 if quick else 6000):
+        for it in range(150 if quick else 2500):
             g = gen.rgfa(rng)
             adj = g.adjacency()
             gtext = g.text(shuffle_rng=rng if rng.random() < 0.3 else None)
